@@ -196,7 +196,7 @@ def m_vec_asref(c):
     return c.args[0]
 
 
-@model('<Vec as Clone>::clone', 'core::slice::to_vec', '<[T] as ToOwned>::to_owned')
+@model('<Vec as Clone>::clone', 'core::slice::to_vec', 'std::slice::to_vec', 'slice::to_vec', '<[T] as ToOwned>::to_owned')
 def m_vec_clone(c):
     s = as_seq(c.st, c.args[0])
     items = s.items(c.st)
